@@ -66,8 +66,9 @@ class Died:
         return f"exit code {self.exitcode}"
 
 
-def imap_unordered(fn, keys, jobs, init=None, per_key_timeout=None):
-    """Yield (index, result-or-Died) for every key, in completion order."""
+def imap_unordered(fn, keys, jobs, init=None, per_key_timeout=None, should_stop=None):
+    """Yield (index, result-or-Died) for every key, in completion order.  If should_stop()
+    becomes true no further keys are handed out (running ones are drained)."""
     ctx = mp.get_context("fork")
     n = len(keys)
     nxt = 0
@@ -82,7 +83,9 @@ def imap_unordered(fn, keys, jobs, init=None, per_key_timeout=None):
         return a
 
     def feed(c):
-        nonlocal nxt
+        nonlocal nxt, n
+        if should_stop is not None and nxt < n and should_stop():
+            n = nxt  # nothing further is dispatched
         if nxt < n:
             live[c][1] = nxt
             c.send((nxt, keys[nxt]))
